@@ -95,6 +95,7 @@ def check(ctx):
     ctx.attempt(common.embedded_case_consistency, modules=('rgxlib.aliquots',))
     ctx.attempt(_chain_language)
     ctx.attempt(common.config_words, plss=('clean_qq',), tract=('clean_qq',))
+    ctx.attempt(common.locate_by_text, ctx.repo.func('tract_preprocess:process_half_plus_q_match'))
 
 
 def _tables(ctx, base):
